@@ -346,6 +346,11 @@ func init() {
 			o.Positioner = 1
 			o.Router = []int{4, 1, 0}[r.Intn(3)]
 			c.Opts = o
+			if r.Intn(4) == 0 {
+				// node names are opaque: a quarter of the cases uses names whose concatenations collide
+				c.Edges = renameEdges(c.Edges, ambiguousNames(r, nodeIDs(c.Edges)))
+				c.Family += "+ambiguous-names"
+			}
 			return c
 		},
 		Check: func(c *core.Case, wantSample bool) Result {
